@@ -152,6 +152,7 @@ fn sc_bulk(prop: &str) -> LevelCfg {
         Op::BulkAdd(70),
         Op::BulkCancel(36),
         Op::BulkCancel(5),
+        Op::BulkDormant(130),
         Op::Churn(1, 40),
         Op::Add(1, 0),
         Op::Add(2, 1),
@@ -162,6 +163,24 @@ fn sc_bulk(prop: &str) -> LevelCfg {
         Op::Match(25),
         Op::Match(1000),
     ];
+    c
+}
+
+/// SC-realts: timestamps as they occur in practice - epoch seconds next to epoch milliseconds, and values around
+/// 10^11 where the two conventions meet (pinned per template; order ids are free)
+fn sc_realts(prop: &str) -> LevelCfg {
+    let mk = |ts: u64, q: u64| mk_ts(if q == 5 { Tmpl::S5 } else { Tmpl::IC23 }, 0, LEVEL_PRICE, ts);
+    let templates = vec![
+        ("S5@1700000000s".to_string(), mk(1_700_000_000, 5)),
+        ("S5@1616823000000ms".to_string(), mk(1_616_823_000_000, 5)),
+        ("IC23@1616823000001ms".to_string(), mk(1_616_823_000_001, 2)),
+        ("S5@99999995000".to_string(), mk(99_999_995_000, 5)),
+        ("IC23@100000005000".to_string(), mk(100_000_005_000, 2)),
+    ];
+    let mut c = base_cfg(prop, "SC-realts", LEVEL_PRICE, templates);
+    c.ops = adds(&[1, 2, 3], 5);
+    c.ops.extend(upds(&[1, 2, 3], &[UpdKind::Cancel]));
+    c.ops.extend(matches(&[2, 7, 1000]));
     c
 }
 
@@ -415,7 +434,15 @@ pub fn plans(prop: &str, tier: &str) -> Vec<Plan> {
             e.check.c10 = true;
             let mut bk = sc_bulk(prop);
             bk.check.c10 = true;
+            let mut rt = sc_realts(prop);
+            rt.check.c10 = true;
+            // an order whose own price differs from the level's
+            a.templates.push(("SX5".into(), mk_ts(Tmpl::SX5, 0, LEVEL_PRICE, 0)));
+            let nx = a.templates.len() - 1;
+            a.ops.push(Op::Add(1, nx));
+            a.ops.push(Op::Add(2, nx));
             vec![
+                Plan { cfg: rt, depth: d(4, 5) },
                 Plan { cfg: a, depth: d(3, 5) },
                 Plan { cfg: o, depth: d(4, 7) },
                 Plan { cfg: e, depth: d(3, 6) },
@@ -431,7 +458,14 @@ pub fn plans(prop: &str, tier: &str) -> Vec<Plan> {
             let mut bk = sc_bulk(prop);
             bk.check.c11 = true;
             bk.variants = vec![(false, false), (true, false), (false, true), (true, true)];
-            vec![Plan { cfg: bk, depth: d(3, 4) }, Plan { cfg: o, depth: d(4, 6) }]
+            let mut rt = sc_realts(prop);
+            rt.check.c11 = true;
+            rt.variants = vec![(false, false), (true, false), (false, true), (true, true)];
+            vec![
+                Plan { cfg: bk, depth: d(3, 4) },
+                Plan { cfg: rt, depth: d(3, 4) },
+                Plan { cfg: o, depth: d(4, 6) },
+            ]
         }
         "C15" => {
             // positive quantities only
@@ -511,6 +545,9 @@ pub fn emit_unit_test(cfg: &LevelCfg, hist: &[u16], message: &str) -> String {
             }
             Op::BulkAdd(n) => {
                 t.push_str(&format!("    for i in 0..{n}u64 {{ {level_var}.add_order(OrderType::Standard {{ id: OrderId::from_u64(100 + i), price: {}, quantity: 2, side: pricelevel::Side::Buy, timestamp: 1000 + i, time_in_force: pricelevel::TimeInForce::Gtc, extra_fields: () }}); }}\n", cfg.price));
+            }
+            Op::BulkDormant(n) => {
+                t.push_str(&format!("    for i in 0..{n}u64 {{ {level_var}.add_order(OrderType::IcebergOrder {{ id: OrderId::from_u64(300 + i), price: {}, visible_quantity: 0, hidden_quantity: 2, side: pricelevel::Side::Buy, timestamp: 3000 + i, time_in_force: pricelevel::TimeInForce::Gtc, extra_fields: () }}); }}\n", cfg.price));
             }
             Op::BulkCancel(n) => {
                 t.push_str(&format!("    for i in 0..{n}u64 {{ let _ = {level_var}.update_order(OrderUpdate::Cancel {{ order_id: OrderId::from_u64(100 + i) }}); }}\n"));
